@@ -1,21 +1,28 @@
 /-
   CRModel.WriterSM — state machine of the scenario file writers
     commonroad/common/file_writer.py                   (CommonRoadFileWriter: a facade, delegates 1:1)
-    commonroad/common/writer/file_writer_interface.py  (FileWriter.__init__, _handle_file_path, DecimalPrecision)
+    commonroad/common/writer/file_writer_interface.py  (FileWriter.__init__, _own_decimal_precision, _handle_file_path)
     commonroad/common/writer/file_writer_xml.py        (XMLFileWriter, float_to_str)
     commonroad/common/writer/file_writer_protobuf.py   (ProtobufFileWriter)
 
-  What is modelled: everything that survives between calls or is shared between writers —
-    * the process-global `precision.decimals` (interface.py:10-14), written by every constructor
-      (interface.py:58) and read by `float_to_str` while a tree is built (xml.py:62-74);
-    * per writer object: its constructor arguments and the children of `XMLFileWriter._root_node`;
-    * the file system (path ↦ content), the default file names and the overwrite policy.
-  What is a parameter (`Codec`): which nodes / bytes a scenario, a planning-problem set and the
-  remaining constructor arguments turn into at a given precision (C01–C03 are about that content).
+  The MECHANISM is modelled, step by step, on mutable state:
+    * the process-global `precision.decimals` (`Proc.gprec`, interface.py:10-14): assigned by every constructor
+      (interface.py:58); a write of the XML writer saves it, installs the writer's own `_decimal_precision`, and
+      restores the saved value in a `finally` (interface.py:60-72, xml.py:240, 282) — also when a node creator raises;
+    * every node creator (`…XMLNode.create_node`) formats its floats with `float_to_str`, which reads the global AT THAT
+      MOMENT (xml.py:62-74): `appendItem` passes `st.gprec` of the current state to `Codec.xmlNode`;
+    * per writer object: the constructor arguments, and the mutable document — the children of `_root_node` / the repeated
+      fields of `_commonroad_msg` (`Writer.root`) and the date attribute the header sets (`Writer.date`); a write replaces
+      the document by an empty one (xml.py:238, 280; protobuf.py:203, 230), `_write_header` sets the date,
+      `_add_all_objects_from_scenario` / `_add_all_planning_problems_…` append one node per object, the file is dumped from
+      the document as it then is;
+    * the file system (path ↦ content), the default file names, the overwrite policy, the empty file name.
+  Parameters (`Codec`): which objects a scenario / planning-problem set consists of, what node an object becomes at a
+  given precision (and whether its creator raises), how a document is serialised, how the date stamp is erased, what a
+  reader makes of a file (C01–C03 are about these).
 
-  `Sem` selects between the code as it is now (`repaired`) and the code as it was before the two
-  `fix:` commits (`legacy`); the driver and the theorems use `repaired`, `legacy` is kept to state the
-  two defects as theorems on a witness (CRProps/C15.lean).
+  `Sem` selects between the code as it is now (`repaired`) and the code before the two `fix:` commits (`legacy`);
+  driver and theorems use `repaired`, `legacy` states the two former defects as theorems (CRProps/C15.lean).
 -/
 import CRModel.Basic
 namespace CR.Writer
@@ -34,34 +41,39 @@ inductive Mode where
   | ask | always | skip
   deriving DecidableEq, Repr, Inhabited
 
-/-- `FileFormat.value` — `_get_suffix` (xml.py:176, protobuf.py:182). -/
+/-- `FileFormat.value` — `_get_suffix`. -/
 def suffix : Format → String
   | .xml => ".xml"
   | .pb => ".pb"
 
-/-- The content producers the state machine does not look into. `Input` stands for everything a
-    writer is constructed from except format and precision: scenario, planning-problem set, author,
-    affiliation, source, tags, location. -/
-structure Codec (Input Node Bytes : Type) where
+/-- The content producers the state machine does not look into. `Input` stands for everything a writer is constructed
+    from except format and precision: scenario, planning-problem set, author, affiliation, source, tags, location. -/
+structure Codec (Input Item Node Bytes Date Content : Type) where
   /-- `str(scenario.scenario_id)` -/
   benchId : Input → String
-  /-- `_add_all_objects_from_scenario` at the precision `float_to_str` sees (xml.py:186-203) -/
-  scNodes : Input → Nat → List Node
-  /-- `_add_all_planning_problems_from_planning_problem_set` (xml.py:205-207) -/
-  ppNodes : Input → Nat → List Node
-  /-- header attributes (`_write_header`, `set` overwrites) + the root's children, serialised -/
-  dumpXml : Input → List Node → Bytes
-  /-- the protobuf message is built from scratch in every write and holds no text-formatted float
-      (protobuf.py:199-235) -/
-  pbBytes : Input → Kind → Bytes
+  /-- the objects `_add_all_objects_from_scenario` iterates over (location, tags, lanelets, signs, lights,
+      intersections, obstacles), in that order -/
+  scItems : Input → List Item
+  /-- the objects `_add_all_planning_problems_from_planning_problem_set` iterates over -/
+  ppItems : Input → List Item
+  /-- a `…XMLNode.create_node(x)`; the `Nat` is what `precision.decimals` holds when it runs; may raise -/
+  xmlNode : Item → Nat → Res Node
+  /-- a `…Message.create_message(x)` (no text-formatted float); may raise -/
+  pbNode : Item → Res Node
+  /-- `tree.write`: header attributes (from the input) + date attribute + the root's children -/
+  dumpXml : Input → Option Date → List Node → Bytes
+  /-- `SerializeToString` of the message: information (with date) + repeated fields -/
+  dumpPb : Input → Option Date → List Node → Bytes
+  /-- the content "the date stamp aside" -/
+  eraseDate : Bytes → Bytes
+  /-- a reader (`CommonRoadFileReader(...).open()`), `none` when it raises -/
+  read : Bytes → Option Content
 
 /-- Variant of the code. -/
 structure Sem where
-  /-- the XML root element is created in every write (now: xml.py:227, 269) / once in `__init__` only
-      (before: xml.py:153) -/
+  /-- the XML root element is replaced by an empty one at the start of every write (now) / never (before) -/
   freshRoot : Bool
-  /-- a write installs the writer's own `decimal_precision` for its duration and restores the global
-      afterwards (now: interface.py:57, 60-72, xml.py:229, 271) / uses whatever `precision.decimals` holds (before) -/
+  /-- an XML write installs the writer's own precision and restores the global afterwards (now) / does neither (before) -/
   ownPrec : Bool
   deriving DecidableEq, Repr
 
@@ -69,28 +81,31 @@ def repaired : Sem := ⟨true, true⟩
 def legacy : Sem := ⟨false, false⟩
 
 /-- A writer object. -/
-structure Writer (Input Node : Type) where
+structure Writer (Input Node Date : Type) where
   fmt : Format
   inp : Input
   /-- `self._decimal_precision` -/
   prec : Nat
-  /-- children of `self._root_node` (XML); unused for protobuf (`_commonroad_msg` is re-created) -/
+  /-- the date attribute of the document (`_root_node.get("date")` / `information.date`) -/
+  date : Option Date
+  /-- children of `self._root_node` / repeated fields of `self._commonroad_msg` -/
   root : List Node
 
 /-- Process state. -/
-structure Proc (Input Node Bytes : Type) where
+structure Proc (Input Node Bytes Date : Type) where
   /-- `precision.decimals` -/
   gprec : Nat
   fs : String → Option Bytes
   /-- the writer objects, in order of construction -/
-  ws : List (Writer Input Node)
+  ws : List (Writer Input Node Date)
 
-inductive Op (Input : Type) where
+inductive Op (Input Date : Type) where
   /-- `CommonRoadFileWriter(..., decimal_precision = prec, file_format = fmt)` (or the class itself) -/
   | new (fmt : Format) (inp : Input) (prec : Nat)
   /-- `ws[w].write_to_file(file, mode)` / `.write_scenario_to_file(file, mode)`;
-      `answerN`: the user types "n" when asked (only looked at for `Mode.ask` on an existing file) -/
-  | write (w : Nat) (kind : Kind) (file : Option String) (mode : Mode) (answerN : Bool)
+      `answerN`: the user types "n" when asked (only looked at for `Mode.ask` on an existing file);
+      `date`: what `datetime.datetime.today()` returns during this call -/
+  | write (w : Nat) (kind : Kind) (file : Option String) (mode : Mode) (answerN : Bool) (date : Date)
 
 inductive Outcome (Bytes : Type) where
   | created (id : Nat)
@@ -100,40 +115,138 @@ inductive Outcome (Bytes : Type) where
   deriving DecidableEq, Repr
 
 section
-variable {Input Node Bytes : Type}
+variable {Input Item Node Bytes Date Content : Type}
 
-/-- File name used: the given one, else `str(scenario_id) + suffix` (interface.py:158-159) —
-    except `XMLFileWriter.write_scenario_to_file`, which has its own copy of the path handling and
-    appends no suffix (xml.py:252-253 `if filename is None: filename = str(self.scenario.scenario_id)`). -/
-def resolveName (c : Codec Input Node Bytes) (w : Writer Input Node) (kind : Kind) : Option String → String
+/-- File name used: the given one, else `str(scenario_id) + suffix` (interface.py:158-159) — except
+    `XMLFileWriter.write_scenario_to_file`, which has its own copy of the path handling and appends no suffix
+    (xml.py `if filename is None: filename = str(self.scenario.scenario_id)`). -/
+def resolveName (c : Codec Input Item Node Bytes Date Content) (w : Writer Input Node Date) (kind : Kind) :
+    Option String → String
   | some f => f
   | none =>
     match w.fmt, kind with
     | .xml, .scenarioOnly => c.benchId w.inp
     | f, _ => c.benchId w.inp ++ suffix f
 
-/-- `overwrite == "n"` for an existing file (interface.py:161-174; same text in xml.py:255-267). -/
+/-- `overwrite == "n"` for an existing file (interface.py:161-174; same text in XMLFileWriter.write_scenario_to_file). -/
 def keepExisting : Mode → Bool → Bool
   | .ask, answerN => answerN
   | .skip, _ => true
   | .always, _ => false
 
-/-- The nodes one write appends to the root element, at the precision `float_to_str` reads. -/
-def newNodes (c : Codec Input Node Bytes) (inp : Input) (kind : Kind) (p : Nat) : List Node :=
-  c.scNodes inp p ++ (match kind with | .full => c.ppNodes inp p | .scenarioOnly => [])
+/-- The objects one write turns into nodes. -/
+def itemsOf (c : Codec Input Item Node Bytes Date Content) (inp : Input) : Kind → List Item
+  | .full => c.scItems inp ++ c.ppItems inp
+  | .scenarioOnly => c.scItems inp
 
-/-- What the property says the content is: a function of the writer's own inputs. -/
-def render (c : Codec Input Node Bytes) (fmt : Format) (inp : Input) (kind : Kind) (prec : Nat) : Bytes :=
+/-! #### The specification: content as a function of the writer's own inputs (and the date) -/
+
+/-- Nodes of a list of objects, all made by the same creator; the first exception wins. -/
+def mkNodes (mk : Item → Res Node) : List Item → Res (List Node)
+  | [] => .ok []
+  | it :: r =>
+    match mk it with
+    | .error e => .error e
+    | .ok n =>
+      match mkNodes mk r with
+      | .error e => .error e
+      | .ok ns => .ok (n :: ns)
+
+/-- The node creator of a format at a FIXED precision. -/
+def creator (c : Codec Input Item Node Bytes Date Content) (fmt : Format) (prec : Nat) (it : Item) : Res Node :=
   match fmt with
-  | .xml => c.dumpXml inp (newNodes c inp kind prec)
-  | .pb => c.pbBytes inp kind
+  | .xml => c.xmlNode it prec
+  | .pb => c.pbNode it
+
+def dump (c : Codec Input Item Node Bytes Date Content) (fmt : Format) (inp : Input) (d : Option Date) (ns : List Node) : Bytes :=
+  match fmt with
+  | .xml => c.dumpXml inp d ns
+  | .pb => c.dumpPb inp d ns
+
+/-- What the property says the content is: a function of format, scenario + planning problems + remaining arguments,
+    the method called, the writer's own precision — and the date of the call. `error` = the call raises. -/
+def render (c : Codec Input Item Node Bytes Date Content) (fmt : Format) (inp : Input) (kind : Kind) (prec : Nat)
+    (date : Date) : Res Bytes :=
+  match mkNodes (creator c fmt prec) (itemsOf c inp kind) with
+  | .error e => .error e
+  | .ok ns => .ok (dump c fmt inp (some date) ns)
+
+/-! #### The mechanism -/
+
+abbrev St (Input Node Bytes Date : Type) := Proc Input Node Bytes Date
 
 def setFile (fs : String → Option Bytes) (p : String) (b : Bytes) : String → Option Bytes :=
   fun q => if q = p then some b else fs q
 
-def writeStep (sem : Sem) (c : Codec Input Node Bytes) (st : Proc Input Node Bytes)
-    (i : Nat) (kind : Kind) (file : Option String) (mode : Mode) (answerN : Bool) :
-    Proc Input Node Bytes × Outcome Bytes :=
+/-- Replace the writer object number `i`. -/
+def setWriter (st : St Input Node Bytes Date) (i : Nat) (w : Writer Input Node Date) : St Input Node Bytes Date :=
+  { st with ws := st.ws.set i w }
+
+/-- `self._root_node.append(XNode.create_node(x))` / `msg.xs.append(XMessage.create_message(x))`:
+    the creator runs NOW — an XML creator formats with whatever `precision.decimals` holds in this state. -/
+def appendItem (c : Codec Input Item Node Bytes Date Content) (st : St Input Node Bytes Date) (i : Nat) (it : Item) :
+    St Input Node Bytes Date × Option Err :=
+  match st.ws[i]? with
+  | none => (st, some .index)
+  | some w =>
+    match creator c w.fmt st.gprec it with
+    | .error e => (st, some e)
+    | .ok n => (setWriter st i { w with root := w.root ++ [n] }, none)
+
+/-- The `for x in …: append(create_node(x))` loops; an exception leaves the document as far as it got. -/
+def appendItems (c : Codec Input Item Node Bytes Date Content) (st : St Input Node Bytes Date) (i : Nat) :
+    List Item → St Input Node Bytes Date × Option Err
+  | [] => (st, none)
+  | it :: r =>
+    match appendItem c st i it with
+    | (st', some e) => (st', some e)
+    | (st', none) => appendItems c st' i r
+
+/-- `_write_header`: attributes are set (overwritten), among them the date of the call. -/
+def writeHeader (st : St Input Node Bytes Date) (i : Nat) (date : Date) : St Input Node Bytes Date :=
+  match st.ws[i]? with
+  | none => st
+  | some w => setWriter st i { w with date := some date }
+
+/-- `self._root_node = etree.Element("commonRoad")` / `self._commonroad_msg = commonroad_pb2.CommonRoad()`. -/
+def freshDocument (st : St Input Node Bytes Date) (i : Nat) : St Input Node Bytes Date :=
+  match st.ws[i]? with
+  | none => st
+  | some w => setWriter st i { w with date := none, root := [] }
+
+/-- `_write_header(); _add_all_objects_from_scenario(); [_add_all_planning_problems…()]` — one after the other,
+    each loop reading the state the previous one left. -/
+def buildDocument (c : Codec Input Item Node Bytes Date Content) (st : St Input Node Bytes Date) (i : Nat)
+    (inp : Input) (kind : Kind) (date : Date) : St Input Node Bytes Date × Option Err :=
+  let st1 := writeHeader st i date
+  match appendItems c st1 i (c.scItems inp) with
+  | (st2, some e) => (st2, some e)
+  | (st2, none) =>
+    match kind with
+    | .scenarioOnly => (st2, none)
+    | .full => appendItems c st2 i (c.ppItems inp)
+
+/-- `with self._own_decimal_precision(): <body>` (interface.py:60-72): save, install, run, restore in `finally`. -/
+def withOwnPrecision (sem : Sem) (st : St Input Node Bytes Date) (own : Nat)
+    (body : St Input Node Bytes Date → St Input Node Bytes Date × Option Err) : St Input Node Bytes Date × Option Err :=
+  if sem.ownPrec then
+    let saved := st.gprec
+    let r := body { st with gprec := own }
+    ({ r.1 with gprec := saved }, r.2)
+  else body st
+
+/-- The document-building part of a write call: a new, empty document (always for protobuf, for XML since the fix),
+    then header and loops — the XML writer runs them inside `with self._own_decimal_precision()`. -/
+def buildFor (sem : Sem) (c : Codec Input Item Node Bytes Date Content) (st : St Input Node Bytes Date) (i : Nat)
+    (w : Writer Input Node Date) (kind : Kind) (date : Date) : St Input Node Bytes Date × Option Err :=
+  let st1 := if w.fmt == .pb || sem.freshRoot then freshDocument st i else st
+  match w.fmt with
+  | .xml => withOwnPrecision sem st1 w.prec (fun s => buildDocument c s i w.inp kind date)
+  | .pb => buildDocument c st1 i w.inp kind date
+
+def writeStep (sem : Sem) (c : Codec Input Item Node Bytes Date Content) (st : St Input Node Bytes Date)
+    (i : Nat) (kind : Kind) (file : Option String) (mode : Mode) (answerN : Bool) (date : Date) :
+    St Input Node Bytes Date × Outcome Bytes :=
   match st.ws[i]? with
   | none => (st, .failed .index)
   | some w =>
@@ -143,31 +256,28 @@ def writeStep (sem : Sem) (c : Codec Input Node Bytes) (st : Proc Input Node Byt
     let viaHandle := !(w.fmt == .xml && kind == .scenarioOnly)
     if name = "" && viaHandle then (st, .skipped) else
     if name ≠ "" && (st.fs name).isSome && keepExisting mode answerN then (st, .skipped) else
-    -- the precision `float_to_str` sees while the content is built; restored afterwards
-    let p := if sem.ownPrec then w.prec else st.gprec
-    match w.fmt with
-    | .xml =>
-      let root0 := if sem.freshRoot then [] else w.root
-      let children := root0 ++ newNodes c w.inp kind p
-      let st' := { st with ws := st.ws.set i { w with root := children } }
+    match buildFor sem c st i w kind date with
+    | (st2, some e) => (st2, .failed e)          -- a creator raised: nothing is written
+    | (st2, none) =>
       -- `tree.write("")` raises after the tree has been built
-      if name = "" then (st', .failed .other) else
-      let b := c.dumpXml w.inp children
-      ({ st' with fs := setFile st.fs name b }, .wrote name b)
-    | .pb =>
-      let b := c.pbBytes w.inp kind
-      ({ st with fs := setFile st.fs name b }, .wrote name b)
+      if name = "" then (st2, .failed .other) else
+      -- the file is dumped from the document as it is NOW
+      match st2.ws[i]? with
+      | none => (st2, .failed .index)
+      | some w2 =>
+        let b := dump c w2.fmt w2.inp w2.date w2.root
+        ({ st2 with fs := setFile st2.fs name b }, .wrote name b)
 
-def step (sem : Sem) (c : Codec Input Node Bytes) (st : Proc Input Node Bytes) :
-    Op Input → Proc Input Node Bytes × Outcome Bytes
+def step (sem : Sem) (c : Codec Input Item Node Bytes Date Content) (st : St Input Node Bytes Date) :
+    Op Input Date → St Input Node Bytes Date × Outcome Bytes
   | .new fmt inp prec =>
     -- interface.py:57-58 `self._decimal_precision = …; precision.decimals = decimal_precision`;
-    -- xml.py:153 root element / protobuf.py:95 message
-    ({ st with gprec := prec, ws := st.ws ++ [⟨fmt, inp, prec, []⟩] }, .created st.ws.length)
-  | .write i kind file mode answerN => writeStep sem c st i kind file mode answerN
+    -- xml.py:164 root element / protobuf.py:95 message
+    ({ st with gprec := prec, ws := st.ws ++ [⟨fmt, inp, prec, none, []⟩] }, .created st.ws.length)
+  | .write i kind file mode answerN date => writeStep sem c st i kind file mode answerN date
 
-def run (sem : Sem) (c : Codec Input Node Bytes) (st : Proc Input Node Bytes) :
-    List (Op Input) → Proc Input Node Bytes × List (Outcome Bytes)
+def run (sem : Sem) (c : Codec Input Item Node Bytes Date Content) (st : St Input Node Bytes Date) :
+    List (Op Input Date) → St Input Node Bytes Date × List (Outcome Bytes)
   | [] => (st, [])
   | op :: ops =>
     let r := step sem c st op
@@ -175,23 +285,40 @@ def run (sem : Sem) (c : Codec Input Node Bytes) (st : Proc Input Node Bytes) :
     (rs.1, r.2 :: rs.2)
 
 /-- Final state / outcomes of a history. -/
-def runSt (sem : Sem) (c : Codec Input Node Bytes) (st : Proc Input Node Bytes) (ops : List (Op Input)) :
-    Proc Input Node Bytes := (run sem c st ops).1
+def runSt (sem : Sem) (c : Codec Input Item Node Bytes Date Content) (st : St Input Node Bytes Date)
+    (ops : List (Op Input Date)) : St Input Node Bytes Date := (run sem c st ops).1
 
-def runOut (sem : Sem) (c : Codec Input Node Bytes) (st : Proc Input Node Bytes) (ops : List (Op Input)) :
-    List (Outcome Bytes) := (run sem c st ops).2
+def runOut (sem : Sem) (c : Codec Input Item Node Bytes Date Content) (st : St Input Node Bytes Date)
+    (ops : List (Op Input Date)) : List (Outcome Bytes) := (run sem c st ops).2
+
+/-- The global precision after every operation of a history (observable: `precision.decimals`). -/
+def runGprecs (sem : Sem) (c : Codec Input Item Node Bytes Date Content) (st : St Input Node Bytes Date) :
+    List (Op Input Date) → List Nat
+  | [] => []
+  | op :: ops => (step sem c st op).1.gprec :: runGprecs sem c (step sem c st op).1 ops
 
 end
 
 /-! ### The symbolic codec used by the driver (and by the witnesses of the two former defects)
 
-  Content is abstracted to *what the harness can recognise in a real file*: which input it was made
-  from, how many scenario / planning-problem blocks the root holds, and with how many decimals the
-  probe coordinates of each block were written. -/
+  Content is abstracted to *what the harness can recognise in a real file*: which input it was made from, the date
+  stamp, how many scenario / planning-problem blocks the document holds, and with how many decimals the probe
+  coordinates of each block were written. -/
 
 structure SInput where
   id : Nat
   name : String
+  /-- the planning problems cannot be written: the XML creator raises this … -/
+  xmlErr : Option Err := none
+  /-- … and the protobuf creator this -/
+  pbErr : Option Err := none
+  deriving DecidableEq, Repr, Inhabited
+
+structure SItem where
+  pp : Bool
+  inp : Nat
+  xmlErr : Option Err
+  pbErr : Option Err
   deriving DecidableEq, Repr, Inhabited
 
 /-- `pp = false`: a scenario block (location … obstacles); `pp = true`: the planning problems. -/
@@ -203,16 +330,41 @@ structure SNode where
 
 inductive SBytes where
   /-- a file some writer produced -/
-  | file (fmt : Format) (inp : Nat) (nodes : List SNode)
+  | file (fmt : Format) (inp : Nat) (date : Option String) (nodes : List SNode)
   /-- content that was there before (not produced by a writer) -/
   | foreign (k : Nat)
   deriving DecidableEq, Repr, Inhabited
 
-def symCodec : Codec SInput SNode SBytes where
+/-- What a reader returns, as far as the harness tells read-backs apart. -/
+structure SContent where
+  fmt : Format
+  inp : Nat
+  pp : Bool
+  prec : Nat
+  deriving DecidableEq, Repr, Inhabited
+
+/-- A file reads back iff it holds exactly one scenario block, optionally followed by the planning problems, of the
+    input named in the header (a second block repeats ids: the reader raises). -/
+def symRead : SBytes → Option SContent
+  | .file f i _ [⟨false, j, p⟩] => if i = j then some ⟨f, i, false, p⟩ else none
+  | .file f i _ [⟨false, j, p⟩, ⟨true, k, q⟩] => if i = j ∧ i = k ∧ p = q then some ⟨f, i, true, p⟩ else none
+  | _ => none
+
+def symCodec : Codec SInput SItem SNode SBytes String SContent where
   benchId := fun i => i.name
-  scNodes := fun i p => [⟨false, i.id, p⟩]
-  ppNodes := fun i p => [⟨true, i.id, p⟩]
-  dumpXml := fun i ns => .file .xml i.id ns
-  pbBytes := fun i k => .file .pb i.id (⟨false, i.id, 0⟩ :: (match k with | .full => [⟨true, i.id, 0⟩] | .scenarioOnly => []))
+  scItems := fun i => [⟨false, i.id, none, none⟩]
+  ppItems := fun i => [⟨true, i.id, i.xmlErr, i.pbErr⟩]
+  xmlNode := fun it p => match it.xmlErr with
+    | some e => .error e
+    | none => .ok ⟨it.pp, it.inp, p⟩
+  pbNode := fun it => match it.pbErr with
+    | some e => .error e
+    | none => .ok ⟨it.pp, it.inp, 0⟩
+  dumpXml := fun i d ns => .file .xml i.id d ns
+  dumpPb := fun i d ns => .file .pb i.id d ns
+  eraseDate := fun b => match b with
+    | .file f i _ ns => .file f i none ns
+    | .foreign k => .foreign k
+  read := symRead
 
 end CR.Writer
